@@ -132,8 +132,14 @@ func (f *formatter) WriteDescription(s string) *formatter {
 		return f
 	}
 
+	if !blockStringRepresentable(s) {
+		// a block string would not read back as this text: write it as a quoted string
+		f.WriteString((&ast.Value{Kind: ast.StringValue, Raw: s}).String()).WriteNewline()
+		return f
+	}
+
 	f.WriteString(`"""`)
-	ss := strings.Split(s, "\n")
+	ss := strings.Split(strings.ReplaceAll(s, `"""`, `\"""`), "\n")
 	f.WriteNewline()
 	for _, s := range ss {
 		f.WriteString(s).WriteNewline()
@@ -142,6 +148,28 @@ func (f *formatter) WriteDescription(s string) *formatter {
 	f.WriteString(`"""`).WriteNewline()
 
 	return f
+}
+
+// blockStringRepresentable reports whether s, written line by line between """ delimiters,
+// is read back unchanged: block strings drop leading and trailing blank lines and the
+// indentation common to all lines, turn CR into LF and cannot contain control characters.
+func blockStringRepresentable(s string) bool {
+	for i := 0; i < len(s); i++ {
+		if c := s[i]; c < 0x20 && c != '\t' && c != '\n' {
+			return false
+		}
+	}
+	isBlank := func(line string) bool { return strings.Trim(line, " \t") == "" }
+	lines := strings.Split(s, "\n")
+	if isBlank(lines[0]) || isBlank(lines[len(lines)-1]) {
+		return false
+	}
+	for _, line := range lines {
+		if !isBlank(line) && line[0] != ' ' && line[0] != '\t' {
+			return true
+		}
+	}
+	return false
 }
 
 func (f *formatter) IncrementIndent() {
